@@ -8,6 +8,7 @@ import (
 	"math/big"
 	"slices"
 	"sort"
+	"sync"
 
 	"github.com/creachadair/mds/stree"
 	"verif/elem"
@@ -145,11 +146,11 @@ type mode struct {
 
 // treeStats are the measurements of one run (for the NT rule and the classes).
 type treeStats struct {
-	monoRun, drained, twoChild, clones, drainEmpty, pruned, shaped int
-	minSlack                                                       int
-	delRebuild                                                     bool
-	maxHeight                                                      int
-	succUp2                                                        bool
+	monoRun, drained, twoChild, clones, drainEmpty, pruned, shaped, nested int
+	minSlack                                                               int
+	delRebuild                                                             bool
+	maxHeight                                                              int
+	succUp2                                                                bool
 }
 
 // treeRun interprets a TreeCase on a tree of element type T.
@@ -453,10 +454,17 @@ func deepestLeaf[T any](t *stree.Tree[T]) (T, int, bool) {
 	return best, bestD, true
 }
 
-var bigCache = map[[2]int]*big.Int{}
+var (
+	bigMu    sync.Mutex
+	bigCache = map[[2]int]*big.Int{}
+)
 
+// pow returns base^e (cached; safe for concurrent use: cases may run on
+// several goroutines at once).
 func pow(base, e int) *big.Int {
 	k := [2]int{base, e}
+	bigMu.Lock()
+	defer bigMu.Unlock()
 	if v, ok := bigCache[k]; ok {
 		return v
 	}
@@ -764,6 +772,49 @@ func (r *treeRun[T]) checkAfter(in *inst[T], k int64, j int) string {
 		if calls != j {
 			return r.errf("InorderAfter(%d): %d callbacks after the callback returned false at %d", k, calls, j)
 		}
+		// two iterations alive at once: at the j-th element of an iteration from
+		// k, a second one (from another key, or a whole Inorder) runs to its end
+		// or is abandoned after a few elements; the first then continues.  Both
+		// must list what they list alone (the tree is not modified).
+		n := len(in.m.ks)
+		i2 := (i + 3*j + 1) % n
+		k2 := in.m.ks[i2].K
+		var outer, inner []Key
+		calls = 0
+		for x := range in.t.InorderAfter(r.mk(Key{K: k, Tag: -6})) {
+			outer = append(outer, r.key(x))
+			if calls++; calls == j {
+				lim := n + 1
+				if j%3 == 2 {
+					lim = j%5 + 1 // abandoned early
+				}
+				if j%2 == 0 {
+					for y := range in.t.InorderAfter(r.mk(Key{K: k2, Tag: -7})) {
+						if inner = append(inner, r.key(y)); len(inner) >= lim {
+							break
+						}
+					}
+				} else {
+					i2 = 0
+					for y := range in.t.Inorder {
+						if inner = append(inner, r.key(y)); len(inner) >= lim {
+							break
+						}
+					}
+				}
+				wantIn := in.m.ks[i2:]
+				if len(wantIn) > lim {
+					wantIn = wantIn[:lim]
+				}
+				if !slices.Equal(inner, wantIn) {
+					return r.errf("an iteration started inside the loop body of InorderAfter(%d) (at its element %d) lists %v, want %v", k, j, brief(inner), brief(wantIn))
+				}
+			}
+		}
+		if !slices.Equal(outer, want) {
+			return r.errf("InorderAfter(%d) with a second iteration run inside its loop body (at element %d) lists %v, want %v", k, j, brief(outer), brief(want))
+		}
+		r.nested++
 	}
 	return ""
 }
@@ -1231,6 +1282,7 @@ func runTreeOn[T any](c TreeCase, md mode, o *vk.Obs, kit elem.Kit[T]) (*treeRun
 		return r, msg
 	}
 	for i, op := range c.Ops {
+		o.Step() // interleaved execution (vk.Interleave) switches to the other case here
 		r.step = i
 		if msg := r.apply(op); msg != "" {
 			return r, msg
